@@ -205,24 +205,31 @@ func init() {
 					if c.Str("sys") == "scs" {
 						nb = scs.NewBuilder
 					}
-					var ccs constraint.ConstraintSystem
-					var err error
+					// compile + solve as ONE big job: the compiled system (several GB) is dropped
+					// before the next one is built
+					var out fw.Outcome
 					harn.Big(func() {
+						var ccs constraint.ConstraintSystem
+						var err error
 						harn.Protect(func() { ccs, err = frontend.Compile(ecc.BN254.ScalarField(), nb, mk(in.Clone())) })
+						if err != nil {
+							out = fw.Violate("compile_fails_on_valid_template:"+c.Str("sys"), fmt.Sprintf("case %s: %v", c.ID, trunc(err.Error(), 200)))
+							return
+						}
+						w, err := frontend.NewWitness(mk(in.Clone()), ecc.BN254.ScalarField())
+						if err != nil {
+							out = fw.Inconcl("witness: " + err.Error())
+							return
+						}
+						if err := ccs.IsSolved(w, gadget.SolveOpts(ccs)...); err != nil {
+							out = fw.Violate("compiled_system_rejects_valid_proof:"+c.Str("sys")+":"+c.Str("wrapper"), fmt.Sprintf("case %s (%d constraints): %v", c.ID, ccs.GetNbConstraints(), trunc(err.Error(), 200)))
+							return
+						}
+						out.Events += ccs.GetNbConstraints()
+						out.Inc("compiled_" + c.Str("sys") + "_accepts_" + c.Str("wrapper"))
+						out.Sample = map[string]any{"system": c.Str("sys"), "constraints": ccs.GetNbConstraints(), "wrapper": c.Str("wrapper")}
 					})
-					if err != nil {
-						return fw.Violate("compile_fails_on_valid_template:"+c.Str("sys"), fmt.Sprintf("case %s: %v", c.ID, trunc(err.Error(), 200)))
-					}
-					w, err := frontend.NewWitness(mk(in.Clone()), ecc.BN254.ScalarField())
-					if err != nil {
-						return fw.Inconcl("witness: " + err.Error())
-					}
-					if err := ccs.IsSolved(w, gadget.SolveOpts(ccs)...); err != nil {
-						return fw.Violate("compiled_system_rejects_valid_proof:"+c.Str("sys")+":"+c.Str("wrapper"), fmt.Sprintf("case %s (%d constraints): %v", c.ID, ccs.GetNbConstraints(), trunc(err.Error(), 200)))
-					}
-					o.Events += ccs.GetNbConstraints()
-					o.Inc("compiled_" + c.Str("sys") + "_accepts_" + c.Str("wrapper"))
-					o.Sample = map[string]any{"system": c.Str("sys"), "constraints": ccs.GetNbConstraints(), "wrapper": c.Str("wrapper")}
+					return out
 				case "gnarkcontrol":
 					t := in.Clone()
 					t.PWI.Proof.Openings.Wires[3][0].Limb = uint64(12345)
